@@ -14,7 +14,10 @@ Pick(callv, stubv) == IF callv # None THEN callv ELSE stubv                 \* p
 MinSet(a, b) == IF a = None THEN b ELSE IF b = None THEN a ELSE IF a < b THEN a ELSE b
 \* the deadline the server sees (grpclib combines an effective timeout and an effective deadline to the earlier one)
 EffDeadline(c) == MinSet(Pick(c.kw.timeout, c.stubkw.timeout), Pick(c.kw.deadline, c.stubkw.deadline))
-EffMetadata(c) == IF c.kw.metadata # "" THEN c.kw.metadata ELSE c.stubkw.metadata
+\* metadata: "" = not given, "<empty>" = given but empty ({} / [] / ()): a per-call value that is given wins even when it is empty
+Shown(md) == IF md = "<empty>" THEN "" ELSE md
+EffMetadata(c) == IF c.kw.metadata # "" THEN Shown(c.kw.metadata) ELSE Shown(c.stubkw.metadata)
+\* an explicit per-call timeout of zero is a value too (kw.tzero): the stub-level default must not replace it
 
 Streams(card) == [cs |-> card \in {"STREAM_UNARY", "STREAM_STREAM"}, ss |-> card \in {"UNARY_STREAM", "STREAM_STREAM"}]
 
